@@ -10,7 +10,7 @@ def Trivia.isXopen : Trivia → Bool
   | _ => false
 
 theorem solid_of (c y z : Bytes) (b : UInt8) (t : Bytes) (hc : c = b :: t) (hb : b.toNat < 0x80)
-    (hsb : isSpace b.toNat = false) (hz : Solid z) : Solid (c ++ (y ++ z)) := by
+    (hsb : isLeadBlank b.toNat = false) (hz : Solid z) : Solid (c ++ (y ++ z)) := by
   obtain ⟨s, x, e2, hx, hsx⟩ := hz.last
   exact ⟨⟨b, t ++ (y ++ z), by rw [hc]; rfl, hb, hsb⟩, ⟨c ++ (y ++ s), x, by rw [e2]; simp, hx, hsx⟩⟩
 
@@ -25,7 +25,7 @@ theorem stripLoop_solid_nocomment (fuel : Nat) (z : Bytes) (h : hasCommentPrefix
 theorem stripLoop_trivia : ∀ (ts : List Trivia) (z tail : Bytes) (fuel : Nat),
     (∀ t ∈ ts, t.ok = true ∧ t.isXopen = false) → Solid z → (∀ n, stripLoop n z = z) → AsciiWs tail →
     ts.length ≤ fuel →
-    stripLoop fuel (trimFunc isSpace (renderTrivia ts ++ z ++ tail)) = z := by
+    stripLoop fuel (trimLeadingBlanks (renderTrivia ts ++ z ++ tail)) = z := by
   intro ts
   induction ts with
   | nil =>
@@ -44,7 +44,7 @@ theorem stripLoop_trivia : ∀ (ts : List Trivia) (z tail : Bytes) (fuel : Nat),
     | ws bs =>
       simp only [Trivia.ok, Bool.and_eq_true, List.all_eq_true] at hok
       simp only [Trivia.render, List.append_assoc]
-      rw [trimFunc_ws_prefix bs _ (fun b hb => isAsciiWs_space b (hok.2 b hb))]
+      rw [trimFunc_ws_prefix bs _ (fun b hb => lead_byte b (hok.2 b hb))]
       have := ih z tail fuel hrest hz hc ht (by omega)
       simpa [List.append_assoc] using this
     | cblock body =>
